@@ -170,7 +170,7 @@ class Flow:
         os.chdir(self.dir)
         write_poscar("POSCAR", self.cell)
         dimv = [str(x) for x in self.dim]
-        base = ["--dim"] + dimv + ["-c", "POSCAR", "-q"] if False else ["--dim"] + dimv + ["-c", "POSCAR"]
+        base = ["--dim"] + dimv + ["-c", "POSCAR"]
 
         # ---------------- -d with displacement options
         disp_opts = rng.choice([[], ["--amplitude", "0.03"], ["--nodiag"], ["--pm"], ["--pm", "--nodiag", "--amplitude", "0.02"]])
@@ -231,7 +231,7 @@ class Flow:
 
         # ---------------- forces of a harmonic pair-potential model, -f
         sc = ph.supercell
-        fc_model = gen.pair_fc(sc, cutoff=0.55 * gen.min_lattice_vector(sc.cell) if False else 4.5)
+        fc_model = gen.pair_fc(sc, cutoff=4.5)
         names = []
         forces = []
         for i, scd in enumerate(ph.supercells_with_displacements):
